@@ -6,7 +6,8 @@ from vlib import *
 import comp
 
 INV = ["TypeOK", "SharedImmutable", "Isolation", "Determinism", "CancelOnlyOwn", "PoolHygiene", "CancelStops"]
-NEG = [("DevNoCopy", "SharedImmutable"), ("DevDirtyPool", "PoolHygiene"), ("DevSharedAbort", "CancelOnlyOwn")]
+NEG = [("DevNoCopy", "SharedImmutable", '{"A"}'), ("DevDirtyPool", "PoolHygiene", '{"A"}'), ("DevSharedAbort", "CancelOnlyOwn", '{"A"}'),
+       ("DevSharedCtx", "Isolation", '{"W", "R"}')]
 OWN = {"C16": {"in.determinism", "in.isolation"},
        "C17": {"in.isolation", "in.cancel", "in.panic", "in.closed", "in.pool", "in.hang", "in.race"}}
 
@@ -15,8 +16,9 @@ def check(prop, tier):
     v = Verdict(prop, tier)
     build_harness()
     q = tier == "quick"
-    for sw, inv in NEG:
-        comp.negative(v, "Instances", "Instances_base.cfg", sw, inv, invariants=INV, overrides={"Txs": '{"A"}'})
+    for sw, inv, txs in NEG:
+        comp.negative(v, "Instances", "Instances_base.cfg", sw, inv, invariants=[i for i in INV if sw != "DevSharedCtx" or i != "SharedImmutable"],
+                      overrides={"Txs": txs, "WantSets": '{{"p0"}}'} if sw == "DevSharedCtx" else {"Txs": txs})
     # liveness: a cancelled running instance eventually stops (weak fairness of the instance's own steps, no state constraint)
     rc, out, stats = run_tlc("Instances", "Instances_live.cfg", 900, workers=4)
     if tlc_violation(out) or "Model checking completed" not in out:
@@ -30,6 +32,13 @@ def check(prop, tier):
     r, stats = comp.emit_replay(v, "InstancesScn", "Instances_base.cfg", "instances", 1500 if q else 3400, invariants=INV + ["Emit"], overrides=ov,
                                 sub_args=["-every", every, "-reps", reps, "-free", free], own_comps=OWN[prop], replay_key="vector",
                                 replay_hint="bin/check %s %s (the schedule is in the vector; instances = goroutines gated at JUMPDEST)" % (prop, tier))
+    # the process-wide context-writer object: transactions W (CALL to 0x66) and R (the other call kinds), the caller attached and the
+    # precompile run as separate steps (second gate in the wrapped Transfer function)
+    ov2 = {"Txs": '{"W", "R"}', "WantSets": '{{}, {"p0"}}' if q else '{{}, {"p0"}, {"p0", "rp"}}'}
+    r2, stats2 = comp.emit_replay(v, "InstancesScn", "Instances_base.cfg", "instances", 1500 if q else 3400, invariants=INV + ["Emit"], overrides=ov2,
+                                  sub_args=["-every", "10" if q else "2", "-reps", "2", "-free", "4" if q else "40"], own_comps=OWN[prop], replay_key="vector",
+                                  replay_hint="bin/check %s %s (the schedule is in the vector; gates at JUMPDEST and inside EVM.Call on 0x66)" % (prop, tier))
+    v.notes["replay_context_writer"] = {"overrides": ov2, "behaviours_replayed": r2["histories"], "mismatching_components": r2.get("byComp"), "tlc": stats2}
     v.notes["replay"] = {"behaviours_replayed": r["histories"], "every": int(every), "solo_repetitions_per_config": int(reps), "free_running_rounds": int(free),
                          "by_kind": r.get("byKind"), "mismatching_components": r.get("byComp"), "tlc": stats}
     if not q and prop == "C17":
@@ -45,7 +54,7 @@ def check(prop, tier):
         finally:
             shutil.rmtree(d, ignore_errors=True)
     v.cov["exhaustive"] = False
-    v.cov["rule"] = ("Instances.tla is model-checked exhaustively for 2 instances x 2 loop iterations x extra-EIP sets over {3855 (adds an opcode), 1884 (reprices opcodes in place, pre-Istanbul fork)} x 2 transactions x Cancel at any point "
+    v.cov["rule"] = ("Instances.tla is model-checked exhaustively for 2 instances x 2 loop iterations x extra-EIP sets over {3855 (adds an opcode), 1884 (reprices opcodes in place, pre-Istanbul fork)} x 2 transactions x Cancel at any point, and for the two context-writer transactions (CALL / the other call kinds on 0x66, caller attached and precompile run as separate steps) "
                      "(safety invariants; CancelLive under weak fairness); every %s-th complete interleaving is replayed on real EVMs in gated goroutines and each instance's full "
                      "observable outcome (result, gas, state root, logs, call tree, every journal query in returned order) must equal its solo outcome; every configuration "
                      "runs alone %s times on equal pre-states (byte-identical digests required); %s free-running rounds of 8 concurrent instances; "
